@@ -121,13 +121,18 @@ def model : Drv Engine where
           (e', obs e' ++ tags e ops)
         else (e, ["panic"])
 
+/-- static fields the engine holds for a tracked order, as far as they are observed: (quantity, price) -/
+abbrev Statics := Rat × Rat
+
 /-- spec state: per instrument, association list cid ↦ the lifecycle states the property allows
 (more than one only after a report whose exchange timestamp EQUALS the held one: the property
 demands "never back to an older timestamp" and is silent on which of two equal-time reports is
-kept); `poisoned` once a hand-built cancel-in-flight marker was seen (the lifecycle says nothing
-about those) -/
+kept), and cid ↦ the (quantity, price) pairs the property allows the engine to hold for that order
+(`specStatics`; empty exactly when the id is untracked); `poisoned` once a hand-built
+cancel-in-flight marker was seen (the lifecycle says nothing about those) -/
 structure SpecSt where
   tables : List (List (Nat × List (Option Active)))
+  statics : List (List (Nat × List Statics))
   poisoned : Bool
 
 def specLookup (t : List (Nat × List (Option Active))) (c : Nat) : List (Option Active) :=
@@ -135,6 +140,12 @@ def specLookup (t : List (Nat × List (Option Active))) (c : Nat) : List (Option
 
 def specSet (t : List (Nat × List (Option Active))) (c : Nat) (v : List (Option Active)) :
     List (Nat × List (Option Active)) :=
+  (c, v) :: t.filter (·.1 != c)
+
+def staticsLookup (t : List (Nat × List Statics)) (c : Nat) : List Statics :=
+  ((t.find? (·.1 == c)).map (·.2)).getD []
+
+def staticsSet (t : List (Nat × List Statics)) (c : Nat) (v : List Statics) : List (Nat × List Statics) :=
   (c, v) :: t.filter (·.1 != c)
 
 /-- the other admissible outcome of an equal-timestamp open report: keep what is held -/
@@ -148,15 +159,51 @@ def tieAlternatives (st : Option Active) (op : Op) (c : Nat) : List (Option Acti
 def dedupStates (l : List (Option Active)) : List (Option Active) :=
   l.foldl (fun acc x => if acc.contains x then acc else acc ++ [x]) []
 
+def dedupStatics (l : List Statics) : List Statics :=
+  l.foldl (fun acc x => if acc.contains x then acc else acc ++ [x]) []
+
+/-- The (quantity, price) pairs the property admits for the order `op` is about, AFTER `op`
+(`held` = the pairs admitted before; `wasTracked` / `nowTracked` = the lifecycle verdict before / after).
+Written from the property text, clause by clause:
+
+* "an order becomes tracked when a request for it is sent or the exchange reports it open": the
+  order that is tracked is the one the request / the report describes, so
+  - an open request sent (`open i c q p`, `record_in_flight_open`) (re)creates the entry with the
+    REQUEST's quantity and price, definite - also when the id was already tracked (ASSUMPTIONS
+    reading 2: a re-sent open request replaces the entry);
+  - a report that makes an UNTRACKED id tracked (open report with something left to fill; in-flight
+    echo) creates the entry with the REPORT's quantity and price, definite;
+* "it stops being tracked as soon as ...": nothing is held for an untracked id (`[]`);
+* a report about an id that is tracked before and after: the text does not say whether the held
+  quantity / price stay (what today's code does: it only assigns `.state`) or become the report's:
+  both are admitted, and every pair admitted so far stays admitted together with the report's (a set,
+  printed as `{a|b}` alternatives);
+* a cancel request and a cancel response carry no quantity / price: the set is unchanged;
+* "reports about one order never change another": `specApply` calls this for `op.cid` on `op`'s
+  instrument ONLY - the sets of every other id and every other instrument are left as they are, so a
+  report that rewrites another order's quantity or price is an oracle failure on that order's `ins`
+  token.
+
+Whether "nothing left to fill" holds is decided by the lifecycle table on the REPORT's quantity
+(`Op.input`: `remZero s.quantity o`), never on a held one. -/
+def specStatics (held : List Statics) (wasTracked nowTracked : Bool) : Op → List Statics
+  | .recOpen _ q p _ => if nowTracked then [(q, p)] else []
+  | .snapshot s =>
+    if nowTracked then dedupStatics ((if wasTracked then held else []) ++ [(s.quantity, s.price)]) else []
+  | .recCancel _ => if nowTracked then held else []
+  | .cancelResp _ _ => if nowTracked then held else []
+
 def specApply (s : SpecSt) (i : Nat) (op : Op) : SpecSt :=
   if !op.exchangeStatesOnly then { s with poisoned := true } else
-  match s.tables[i]? with
-  | none => s
-  | some t =>
+  match s.tables[i]?, s.statics[i]? with
+  | some t, some q =>
     let c := op.cid
-    let next := dedupStates ((specLookup t c).flatMap fun st =>
+    let prev := specLookup t c
+    let next := dedupStates (prev.flatMap fun st =>
       Lifecycle.stepOp c st op :: tieAlternatives st op c)
-    { s with tables := s.tables.set i (specSet t c next) }
+    let held := specStatics (staticsLookup q c) (prev.any (·.isSome)) (next.any (·.isSome)) op
+    { s with tables := s.tables.set i (specSet t c next), statics := s.statics.set i (staticsSet q c held) }
+  | _, _ => s
 
 def fmtAlt (c : Nat) (alts : List (Option Active)) : Option String :=
   let toks := alts.map fun a => match a with
@@ -167,20 +214,32 @@ def fmtAlt (c : Nat) (alts : List (Option Active)) : Option String :=
   | [one] => some one
   | many => some ("{" ++ "|".intercalate many ++ "}")
 
+/-- `ins` token of one id: every admitted (quantity, price) with every admitted lifecycle state (the
+state part is exactly the `st` token's); no token for an untracked id -/
+def fmtIns (c : Nat) (sts : List Statics) (alts : List (Option Active)) : Option String :=
+  if alts.all (·.isNone) then none else
+  let toks := sts.flatMap fun (q, p) => alts.filterMap fun a =>
+    a.map fun a => s!"{c}:{fmtRat q}:{fmtRat p}:{fmtActive a}"
+  match toks with
+  | [one] => some one
+  | many => some ("{" ++ "|".intercalate many ++ "}")
+
 def specObs (s : SpecSt) : List String :=
   if s.poisoned then [] else
-  s.tables.zipIdx.filterMap fun (t, i) =>
+  (s.tables.zipIdx.map fun (t, i) =>
     -- an id that may or may not be tracked cannot be expressed positionally: stay silent on that table
-    if t.any (fun (_, alts) => alts.length > 1 && alts.contains none) then none else
-    some (s!"st{i} " ++ " ".intercalate ((sortByCid t).filterMap fun (c, alts) => fmtAlt c alts))
+    if t.any (fun (_, alts) => alts.length > 1 && alts.contains none) then [] else
+    let q := (s.statics[i]?).getD []
+    [ s!"ins{i} " ++ " ".intercalate ((sortByCid t).filterMap fun (c, alts) => fmtIns c (staticsLookup q c) alts),
+      s!"st{i} " ++ " ".intercalate ((sortByCid t).filterMap fun (c, alts) => fmtAlt c alts) ]).flatten
 
 def spec : Drv SpecSt where
-  init := ⟨[], false⟩
+  init := ⟨[], [], false⟩
   step s toks :=
     match toks with
     | ["init", n] =>
       match n.toNat? with
-      | some n => let s' : SpecSt := ⟨List.replicate n [], false⟩; (s', specObs s')
+      | some n => let s' : SpecSt := ⟨List.replicate n [], List.replicate n [], false⟩; (s', specObs s')
       | none => (s, ["bad-op"])
     | _ =>
       match parseOps toks with
